@@ -1,3 +1,4 @@
+import procdrive
 """Registry: per property, the theorem module + theorems that form the proof gate, and the
 correspondence streams of each tier.  Extended as theorems land."""
 
@@ -215,3 +216,24 @@ PROPS["C15"] = {
     "rule": UCI_RULE + "; for C15 additionally the real binary is fed junk sessions, end-of-input at every point and quit, and must answer isready, exit with status 0 promptly and print no panic",
     "assumptions": ["FEN arguments are valid FEN (Board::from_fen panics otherwise: outside the property)", "setoption name/value are lower-cased with to_lowercase(): modelled for ASCII only"],
 }
+
+PROPS["C10"] = {
+    "module": "RCE.Props.C10",
+    "theorems": ["RCE.Props.C10.stop_never_lost", "RCE.Props.C10.stop_answers_in_three_steps", "RCE.Props.C10.go_never_dropped",
+                 "RCE.Props.C10.blocked_go_is_accepted", "RCE.Props.C10.one_bestmove_per_go", "RCE.Props.C10.old_stop_lost", "RCE.Props.C10.old_go_dropped"],
+    "streams": {"quick": [], "thorough": []},
+    "extra": procdrive.c10_extra,
+    "need_engine": True,
+    "rule": "14 scripts over {go finite/infinite, stop, position, isready, go} x forced orderings of the labelled schedule points (search entry, first iteration done, before flag clear, "
+            "before/after bestmove, search exit, after spawn, command done) obtained by env-configured delays on the real binary (cfg rce_verif), on 2 (quick) / 6 (thorough) positions, repeated; "
+            "observed: number of bestmoves, explicit refusals, time from stop to bestmove, readyok afterwards, legality of the moves; the realised order of the labelled points is read back from "
+            "stderr and replayed on the Lean protocol model, whose bestmove / refusal counts must agree; distinct = (position, schedule) pairs",
+    "assumptions": ["OS fairness (each thread is eventually scheduled) is a hypothesis of the progress statements", "Relaxed atomics on one location modelled as one sequentially consistent cell",
+                    "wall-clock 'promptly' is measured with an allowance of 0.5 s + the injected delays (PARTIAL for the timing clause)"],
+}
+PROPS["C09"]["extra"] = procdrive.c09_extra
+PROPS["C09"]["need_engine"] = True
+PROPS["C15"]["extra"] = procdrive.c15_extra
+PROPS["C15"]["need_engine"] = True
+PROPS["C16"]["extra"] = procdrive.c16_extra
+PROPS["C16"]["need_engine"] = True
